@@ -6,15 +6,41 @@ def P(checks, shards=1, timeout=600, **kw):
     d.update(kw)
     return d
 
-CHECKS = {
-    "C01": {
-        "pkg": "checks", "test": "TestC01", "flavour": "plain", "level": "exploration",
-        "quick": P(3000), "thorough": P(20000, 16, 1500),
-        "rule": "rapid-generated (config, limits, sorted refs, sorted logs); written with Writer, read back with a full scan; "
-                "non-trivial = >=2 records and (more than one block, or a deletion record, or a log section); distinct = hash of the case JSON",
-        "technique": "property-based testing (rapid): write/read round-trip against the generated record lists",
-        "level_text": "Generated-input search: thousands of generated tables over all configuration fields are written and scanned back; exact equality with the generated records. Shows absence of counterexamples only within the explored cases.",
-        "level_note": "Trusts the generator's reading of the writer's documented domain (ascending keys, NUL-free names, hash size, indices within limits); nothing else.",
-        "assumptions": ["inputs are in the writer's documented domain (ascending keys, NUL-free non-empty names, hashes of the configured size, indices inside the limits)"],
-    },
-}
+CHECKS = {}
+
+def C(pid, test, quick, thorough, rule, technique, level_text, level_note, assumptions,
+      pkg="checks", flavour="plain", level="exploration", **kw):
+    d = {"pkg": pkg, "test": test, "flavour": flavour, "level": level, "quick": quick, "thorough": thorough,
+         "rule": rule, "technique": technique, "level_text": level_text, "level_note": level_note,
+         "assumptions": assumptions}
+    d.update(kw)
+    CHECKS[pid] = d
+
+DOMAIN = "inputs are in the writer's documented domain (ascending keys, NUL-free non-empty names, hashes of the configured size, ref update indices inside the limits, record fits an empty block)"
+BOUNDED = "Shows absence of counterexamples only within the explored cases; nothing is proved."
+
+C("C01", "TestC01", P(3000), P(20000, 16, 1500),
+  rule="rapid-generated (config, limits, sorted refs, sorted logs); written with Writer, read back with a full scan through ByteBlockSource or a file; "
+       "non-trivial = >=2 records and (more than one block, or a deletion record, or a log section); distinct = hash of the case JSON",
+  technique="property-based testing (rapid): write/read round-trip against the generated record lists",
+  level_text="Generated-input search: thousands of generated tables over all configuration fields are written and scanned back; exact equality with the generated records (every field, order, count). " + BOUNDED,
+  level_note="Trusts the generator's reading of the writer's documented domain; nothing else.",
+  assumptions=[DOMAIN])
+
+C("C02", "TestC02", P(1200), P(8000, 16, 1500),
+  rule="rapid-generated tables biased to many small blocks (index depth 0..3+); for every stored key its predecessor/successor/prefix neighbours, '', beyond-last and drawn keys are sought "
+       "(refs: SeekRef+ReadRef; logs: SeekLog+ReadLogAt at idx in {stored, +-1, 0, max}); oracle = suffix of the generated sorted list; "
+       "non-trivial = the sought section has >=2 blocks and >=2 records; distinct = hash of the case JSON",
+  technique="property-based testing (rapid): seek result vs. suffix of the generated list (metamorphic: seek == suffix of scan)",
+  level_text="Generated-input search over tables and every key class the table induces; each seek is compared with the suffix of the input list. " + BOUNDED,
+  level_note="Trusts the generator's domain and the harness's own key order (byte-wise name order; log key = name NUL complemented big-endian index).",
+  assumptions=[DOMAIN])
+
+C("C03", "TestC03", P(500), P(5000, 16, 1500),
+  rule="rapid-generated stacks of 1..6 tables with increasing disjoint limits over a shared pool of 2..12 names and a shared range of log indices (updates, re-creations, deletions, same key in 3+ tables); "
+       "raw NewMerged and NewStack on a hand-assembled directory; full scans and all seek key classes of C02 compared with a newest-wins overlay model; "
+       "non-trivial = >=2 tables share a key and a deletion shadows an older record; distinct = hash of the case JSON",
+  technique="property-based testing (rapid): merged views vs. a newest-wins overlay reference model",
+  level_text="Generated-input search over stacks of tables; both views are compared record for record with a map-based overlay model, for scans and seeks. " + BOUNDED,
+  level_note="Trusts the single-table writer/reader only as far as C01/C02 establish them; the overlay model is 20 lines of map logic.",
+  assumptions=[DOMAIN, "tables of one stack have strictly increasing, non-overlapping update-index limits and one hash id (precondition of NewMerged)"])
